@@ -35,16 +35,22 @@ def run(rep, tier):
         common.write_ndjson(descs, rows)
         nd = halpipe.subsample(descs, keep, common.seed())
         events, bad = halpipe.run_and_validate_sharded(rep, wd, descs, name, shards=8)
-        with_scr = [e for e in events if any(c["decl"] > 0 or c["takes"] for r_ in e["scr"] for c in r_["calls"])]
-        calls = sum(len(r_["calls"]) for e in events for r_ in e["scr"])
+        with_scr, calls, first = 0, 0, None
+        for e in events:   # streamed from disk
+            cs = sum(len(r_["calls"]) for r_ in e["scr"])
+            calls += cs
+            if any(c["decl"] > 0 or c["takes"] for r_ in e["scr"] for c in r_["calls"]):
+                with_scr += 1
+                if first is None:
+                    first = {"op": e["op"], "n": e["n"], "rs": e["rs"], "calls": e["scr"][0]["calls"]}
         total += calls
         rep.evaluations += calls
-        rep.distinct += len(with_scr)
-        rep.extra.setdefault("corpora", []).append({"corpus": name, "descriptors": nd, "events": len(events), "events_taking_scratch": len(with_scr), "scratch_calls": calls})
+        rep.distinct += with_scr
+        rep.extra.setdefault("corpora", []).append({"corpus": name, "descriptors": nd, "events": len(events), "events_taking_scratch": with_scr, "scratch_calls": calls})
         nb = halpipe.report(rep, events, bad, {"scr", "fill"}, name)
-        log("[C12] corpus %s: %d events (%d take scratch, %d library calls in exact-size windows), %d rejected" % (name, len(events), len(with_scr), calls, nb))
-        for e in with_scr[:1]:
-            rep.sample({"op": e["op"], "n": e["n"], "rs": e["rs"], "calls": e["scr"][0]["calls"]})
+        log("[C12] corpus %s: %d events (%d take scratch, %d library calls in exact-size windows), %d rejected" % (name, len(events), with_scr, calls, nb))
+        if first:
+            rep.sample(first)
     # 3. monotonicity of the shape-parameterised size queries
     tb = os.path.join(wd, "tmpbytes.ndjson")
     rowsall = []
